@@ -1,7 +1,7 @@
 /-
 Model of the receive loops `Client.recv` (client.go) and `Component.recv` (component.go), as they are after the
-fixes F-09 (only stanzas are counted), F-05 (nil queue guard) and F-12 (a failed answer write is reported as a
-disconnection). One inbound item = one value returned by `stanza.NextPacket`, or a decoder error.
+fixes F-09 (only stanzas are counted), F-05 (nil queue guard), F-12 (a failed answer write is reported as a
+disconnection) and F-13c (a stream closed by the server is reported as a disconnection, without an error callback). One inbound item = one value returned by `stanza.NextPacket`, or a decoder error.
 -/
 namespace XmppVerif.Model.Recv
 
@@ -48,7 +48,7 @@ def clientStep (s : St) : In → St × List Act × Bool
   | .pkt .r fails =>
     if fails then (s, [.errh, .disconnected s.smId s.inbound], false)
     else (s, [.answer s.inbound, .route .r], true)
-  | .pkt .close _ => (s, [.streamClose], false)
+  | .pkt .close _ => (s, [.streamClose, .disconnected s.smId s.inbound], false)
   | .pkt p _ =>
     let s' := if p.isStanza then { s with inbound := s.inbound + 1 } else s
     (s', [.route p], true)
